@@ -314,7 +314,7 @@ def _run_family(args, conn):
     try:
         _start_trace()
         symx.OPTS['family_budget_s'] = float(os.environ.get(
-            'VERIF_FAMILY_BUDGET_S', '240' if tier == 'quick' else '2400'))
+            'VERIF_FAMILY_BUDGET_S', '150' if tier == 'quick' else '2400'))
         import importlib
         mod = importlib.import_module(modname)
         fn = getattr(mod, fname)
@@ -340,7 +340,7 @@ def _schedule(tasks, jobs, tier):
     far (confirmed counterexamples, counters) is kept and it is reported as
     incomplete, never as success."""
     ctxm = mp.get_context('fork')
-    budget = float(os.environ.get('VERIF_FAMILY_BUDGET_S', '240' if tier == 'quick' else '2400'))
+    budget = float(os.environ.get('VERIF_FAMILY_BUDGET_S', '150' if tier == 'quick' else '2400'))
     hard = budget * 1.5 + 60
     pending = list(tasks)
     running = []   # (proc, conn, args, t0, partial)
@@ -462,10 +462,8 @@ def run_property(prop, tier, seed, families, meta, jobs=None):
             harness.append('%s: vacuous obligation family %s' % (r['family'], v))
         for v in r['cvc5_disagree']:
             harness.append('%s: cvc5 disagrees with z3 on %s' % (r['family'], v))
-        if r['obligations'] > 0 and r['discharged'] == 0 and not r['cex'] and not r['spurious']:
+        if r['obligations'] > 0 and r['discharged'] == 0 and not r['cex'] and not r['spurious'] and not r['incomplete']:
             harness.append('%s: every obligation inconclusive' % r['family'])
-        if r['incomplete'] and not r['cex'] and r['discharged'] == 0:
-            harness.append('%s: family produced nothing before it was cut off: %s' % (r['family'], r['incomplete']))
         if r['obligations'] == 0 and not r['errors'] and not r['incomplete']:
             harness.append('%s: no obligation reached' % r['family'])
     tot = lambda k: sum(r[k] for r in results)
@@ -534,6 +532,8 @@ def run_property(prop, tier, seed, families, meta, jobs=None):
         print('  inconclusive (not counted as discharged): %s' % ', '.join(inconcl[:12]))
     if incomplete:
         print('  incomplete: %s' % '; '.join(incomplete[:6]))
+    if tot('discharged') == 0 and not violations and not knowns:
+        harness.append('no obligation was discharged in the whole run')
     if violations:
         return EXIT_VIOLATION
     if harness:
